@@ -49,7 +49,7 @@ m = {
     },
     "engines": [
         {"name": "kani", "path": "/verif/kani", "serves_properties": sorted(CLAIMS), "kind_free_text": "Kani 0.68 / CBMC 6.11 harnesses compiled into the real crate through the cfg hook; loop-free harnesses over symbolic input of unbounded length with contract stubs as children"},
-        {"name": "verus", "path": "/verif/verus", "serves_properties": [p for p in sorted(CLAIMS) if p in ("C02", "C03", "C05", "C06", "C09", "C11", "C15")], "kind_free_text": "Verus on functions extracted mechanically from /repo each run, plus theory lemmas over the contracts"},
+        {"name": "verus", "path": "/verif/verus", "serves_properties": [p for p in sorted(CLAIMS) if p in ("C02", "C03", "C05", "C06", "C07", "C09", "C10", "C11", "C15")], "kind_free_text": "Verus on functions extracted mechanically from /repo each run, plus theory lemmas over the contracts"},
         {"name": "native-replay", "path": "/verif/replay", "serves_properties": sorted(CLAIMS), "kind_free_text": "the same harness bodies run natively over a small scope to produce and replay counterexamples (never evidence of proof)"},
     ],
     "checks": checks,
